@@ -293,7 +293,8 @@ QueryLabels(e) ==
  \cup (IF ~api.inited \/ Len(road) = 0 \/ ~e.start_valid \/ nm # Len(road) THEN {}
       ELSE  L(e.kind = "nosolution" /\ hi # 0, "C18/query-complete")
        \cup L(e.kind = "ok" /\ lo = 0, "C18/query-complete")
-       \cup L(e.kind \notin {"ok", "nosolution", "timeout", "panic"}, "C08/outcome")
+       \* (a planner may refuse as soon as ONE of several listed start states is invalid)
+       \cup L(e.kind \notin {"ok", "nosolution", "timeout", "panic"} /\ ~(e.kind = "invalidstart" /\ ~e.start_valid_all), "C08/outcome")
        \cup (IF e.kind = "ok" THEN
                IF Len(p) = 0 \/ \E k \in 1 .. Len(p) : p[k] \notin 1 .. nm THEN {"C18/path-milestones"}
                ELSE  L(q.sc[p[1]].inr = 0, "C05/edge-length")
